@@ -1,20 +1,37 @@
 PROPS["C07"] = dict(
     level="exploration",
     technique="packet-driven reference connection table (family + unordered 4-tuple, per-direction interval model over a byte function, FIN/RST lifetime, "
-              "buffer/SACK limits, lazy keep-alive) predicts the callback trace of the real StreamFollower; compared after every packet under ASan/UBSan",
+              "buffer/SACK limits, lazy keep-alive, plus the generated per-stream application behaviour: ignore_*_data, auto_cleanup_*, out-of-order callbacks, "
+              "ack tracking, recovery mode / advance_sequence) predicts the callback trace of the real StreamFollower; compared after every packet under ASan/UBSan",
     level_text="The real Tins::TCPIP::StreamFollower is fed generated histories of 1-40 interleaved IPv4/IPv6 connections (3-way handshake or mid-stream start, data both ways "
                "through the C06 segment generator with reordering/duplication/overlap/stale segments, FIN-FIN / RST / FIN-then-RST / half-close / left-open endings, strays after "
                "the close, tuple reuse after RST, wrap-around ISNs, adversarial neighbouring 4-tuples, generated timestamps with idle gaps around the keep-alive) as Packet objects "
                "(built as PDU objects or parsed from bytes of an own encoder). After EVERY packet the new-stream / client-data / server-data / stream-closed / termination callbacks, "
                "find_stream() for the touched and two other tuples, and the touched stream's public state (sequence numbers, buffered chunk/byte accounting, last_seen) are compared "
                "with the reference table. Limit scripts stop exactly at 512 chunks / 3 MiB / 1024 SACKed intervals (no termination allowed) and then cross by one (termination with the "
-               "right reason required, once). A last packet two keep-alive periods later must flush everything; every announced connection must end exactly once.",
+               "right reason required, once). A last packet two keep-alive periods later must flush everything; every announced connection must end exactly once. "
+               "Every announced connection gets a generated application that lives in its callbacks (a pure function of case salt, 4-tuple, incarnation): it ignores client/server/both "
+               "directions from the new-stream callback or later from a data callback after k bytes (examples/http_requests.cpp), switches automatic cleanup off for one or both "
+               "directions (and sometimes clears payload() itself), registers out-of-order callbacks (that may unregister themselves or call Flow::advance_sequence), enables ack "
+               "tracking, enables recovery mode with a window on streams it attached to mid-way, and lets data callbacks replace themselves while running. The reference table is "
+               "told the same behaviour: announcement / forgetting / closed / termination are demanded unchanged whatever the application does; an ignored direction must deliver "
+               "nothing, report nothing out of order and buffer nothing more (its FIN/RST, MSS/SACK-permitted and ack number are still followed); client_payload()/server_payload() "
+               "must be empty after every packet with cleanup on and equal the whole delivered (not yet application-cleared) prefix with cleanup off; every non-empty segment "
+               "beyond the delivery point must reach the out-of-order callback exactly once with its sequence number and bytes and no segment reaching the delivery point may; "
+               "ack_tracker().ack_number() must equal the highest acknowledgement the direction's sender sent; mss()/sack_permitted() must be those of the direction's SYN; "
+               "recovery mode must continue delivery at an out of order packet inside (X, X+Y] and stop doing so after one outside; StreamIdentifier::make_identifier(Stream) "
+               "must equal the identifier of the 4-tuple in either role order and differ from a neighbour's.",
     level_note="Trusted: the ~150-line reference model (Side/Inc in c07.cpp) and its reading of the statement: a connection starts on SYN-without-ACK (or first payload-carrying segment "
                "when attaching), client = sender of that packet; it is forgotten when both sides have sent FIN or either sent RST, or when a limit is exceeded (strictly more than), "
                "or by a lazy keep-alive sweep. Timeout oracle is the lazy one of the statement: never for idle < keep-alive (idle == keep-alive tolerated either way), exactly once, "
                "and nothing stays tracked for >= 2 keep-alive periods after a packet was processed. Chunk/byte counts are predicted exactly only while all buffered segments of a "
                "connection are pairwise disjoint or identical (limit scripts); otherwise scripts stay below 512 segments so that no count can exceed a limit. SACK intervals are "
-               "predicted only for blocks strictly above the cumulative ACK that do not wrap 2^32.",
+               "predicted only for blocks strictly above the cumulative ACK that do not wrap 2^32. Application controls: only what stream.h/flow.h document is asserted. Observed and counted, "
+               "not asserted (documentation silent): whether segments ending before the delivery point and empty segments reach the out-of-order callback (the engine reports both), "
+               "sequence_number() of an ignored flow, when is_recovery_mode_enabled() turns false (only 'not before an out of order packet outside the window was seen in both "
+               "directions' is asserted), what advance_sequence does to a buffered segment straddling the target (cannot occur with the generated applications). Recovery windows are "
+               "read modulo 2^32 like every other TCP sequence comparison; connections where the engine's plain unsigned reading differs get the key discriminator "
+               "/recovery-seq-wrap on their data-dependent checks (fixes/C07-2.md), are reported once and then only lifetime-checked.",
     phases=[dict(name="main", harness="c07.cpp", flavor="asan", mode="random", cases=dict(quick=4000, thorough=150000))],
     rule="case = (follower configuration: attach on/off, ack tracking on/off, keep-alive; set of connection scripts with distinct 4-tuples derived adversarially from each other; "
          "per-script packet list; timestamps = interleaving); distinct = distinct ordered packet sequence (endpoints, flags, seq, len) + configuration; non-trivial = at least one packet, "
@@ -33,12 +50,29 @@ PROPS["C07"] = dict(
         "tuple:client-port+1": 800, "tuple:server-port+-1": 800, "tuple:ports-swapped-between-hosts": 800, "tuple:roles-swapped-same-ports": 800,
         "tuple:same-address-both-sides": 800, "tuple:neighbour-address": 800, "tuple:reversed-one-port-bit": 800,
         "tuple:v4-mapped": 50, "tuple:v4-compatible": 50, "tuple:v4-embedded-leading": 50, "gen:tuple-reused-after-rst": 1000, "gen:stray-after-close": 3000,
-        "br:out-of-order": 100000, "br:slice-on-entry": 5000, "br:ignored-old": 100000}),
+        "br:out-of-order": 100000, "br:slice-on-entry": 5000, "br:ignored-old": 100000,
+        # application behaviours (per-stream user controls) and what was checked under them
+        "app:only-listens": 5000, "app:ignore-client": 1000, "app:ignore-server": 1000, "app:ignore-both": 500, "app:ignore-switched-on-from-data-callback": 800,
+        "app:no-auto-cleanup": 4000, "app:no-auto-cleanup-one-direction": 2000, "app:payload-cleared-by-application": 600,
+        "app:ooo-callback": 5000, "app:ooo-callback-advances-sequence": 700, "app:ooo-callback-unregistered-itself": 300, "app:data-callback-replaced-itself": 1500,
+        "app:ack-tracking": 8000, "app:recovery-mode": 1200, "app:recovery-mode-window-0": 100,
+        "closed-after-ignore": 1500, "closed-after-ignore:both-directions": 400, "closed-after-ignore:switched-on-later": 400,
+        "ignore:fin-of-ignored-direction": 1200, "ignore:rst-of-ignored-direction": 400, "ignore:client-segment-dropped": 40000, "ignore:server-segment-dropped": 40000,
+        "ignore:began-with-buffered-chunks": 200, "announce:tuple-reused-after-ignoring-application": 400,
+        "chk:ignored-direction-not-buffered": 150000, "chk:ooo-segment-reported": 40000, "chk:in-order-segment-not-reported-as-ooo": 15000,
+        "chk:kept-payload-is-delivered-prefix": 250000, "chk:kept-payload-bytes": 20000000, "chk:payload-erased-after-callback": 500000,
+        "chk:ack-number": 800000, "chk:ack-number-of-ignored-direction": 100000, "chk:mss-of-syn": 500000, "chk:sack-permitted-of-syn": 500000, "chk:stream-identifier": 700000,
+        "rec:skipped-to-segment-in-window": 1000, "rec:segment-beyond-window-buffered": 500, "rec:window-left": 800, "rec:window-test-straddles-seq-wrap(connections)": 150,
+        "skip:application-advanced-sequence": 600, "gen:mid-stream-with-lost-beginning": 500}),
     assumptions=["scripts are well formed: no SYN|FIN, no FIN|RST, no data on SYN/RST; handshake packets are neither reordered nor duplicated (data, FINs and strays are)",
                  "a 4-tuple is reused only after a script whose last packet in time is a RST",
                  "all segments of a connection lie within 2^31 of its delivery point (streams <= 16 KiB; 3 MiB in the byte-limit scripts)",
                  "payload bytes are a function of (direction 4-tuple, absolute sequence number), so every retransmission carries consistent content and a byte delivered to another "
                  "connection or direction is recognised by content",
                  "timestamps are non-decreasing; keep-alive in {1 ms, 250 ms, 1 s, 30 s, 5 min (set or default), 1 h}",
+                 "the application of a connection is fixed when it is announced; ignoring, once on, stays on (the API has no way back); recovery mode is enabled only in the "
+                 "new-stream callback of a stream attached to mid-way (window <= 2^29), after the out-of-order callbacks were registered; an out-of-order callback that calls "
+                 "advance_sequence does so for every non-empty segment beyond the delivery point from the first one on (so the direction's buffer is empty at every skip)",
+                 "connections in recovery mode whose window test straddles the 2^32 wrap get the key discriminator /recovery-seq-wrap on data-dependent checks (fixes/C07-2.md)",
                  "cases containing an IPv4 tuple and an IPv6 tuple with identical leading 4 address bytes followed by zeros get the key discriminator /v4v6-alias (fixes/C07-1.md)"],
 )
